@@ -513,6 +513,61 @@ def rule_oom(ctx):
             ctx.bad(rid, "from-oom-missing:" + w, "no From<OutOfMemory> for %s: `?` on a tracked allocation cannot surface as this error" % w)
 
 
+RAW_ALLOC = ("from_elem", "with_capacity", "try_with_capacity", "try_reserve", "try_reserve_exact", "reserve", "reserve_exact", "resize",
+             "resize_with")
+
+
+def rule_account_first(ctx):
+    """the budget is charged before the memory is taken"""
+    rid = "R-ACCOUNT-FIRST"
+    ctx.rule(rid, "in every function that both charges the tracker (calls AllocTracker::alloc, or hands a closure that does to "
+                  "Option::map / and_then / ...) and allocates (vec![..], Vec::with_capacity, reserve, try_reserve, resize): an "
+                  "allocation from which a charge is still reachable is dominated by some charge - the request goes to the tracker "
+                  "first, so that an absurd size is refused by the budget (an OutOfMemory error) and never reaches the allocator "
+                  "(capacity-overflow panic, abort)")
+    n = 0
+    for f in ctx.prog.all_fns(LIB_CRATES):
+        if f.kind == "Promoted":
+            continue
+        charge = set()
+        for b, t in f.calls():
+            c = callee(t)
+            if c and c["fn"].endswith("AllocTracker::alloc"):
+                charge.add(b)
+        # closures that charge, created here
+        for b, blk in enumerate(f.blocks):
+            if blk[2]:
+                continue
+            for st in blk[0]:
+                if st[0] == "=" and st[2][0] == "agg" and st[2][1][0] == "closure":
+                    g = ctx.prog.fn(st[2][1][1]) or ctx.prog.crate(f.crate).fn(st[2][1][1])
+                    if g is not None and any(callee(t) and callee(t)["fn"].endswith("AllocTracker::alloc") for _, t in g.calls()):
+                        charge.add(b)
+        if not charge:
+            continue
+        allocs = [(b, t) for b, t in f.calls() if callee(t) and callee(t)["fn"].split("::")[-1] in RAW_ALLOC
+                  and ("alloc::" in callee(t)["fn"] or "std::" in callee(t)["fn"] or "Vec" in callee(t)["fn"])]
+        if not allocs:
+            continue
+        ctx.seen(f)
+        n += 1
+        bad = None
+        for b, t in allocs:
+            if b in charge or any(f.dominates(a, b) for a in charge):
+                continue
+            reach = f.reachable(b)
+            if any(a in reach and a != b for a in charge):
+                bad = (b, t)
+                break
+        if bad:
+            ctx.bad(rid, "alloc-before-charge:" + f.path, "%s is called before the tracker is charged for it: a request the budget would refuse "
+                    "reaches the allocator first" % callee(bad[1])["fn"].split("::")[-1], fn=f, pos=bad[1][-2])
+        else:
+            ctx.ok(rid, "charge-first:" + f.path, "%d allocation(s), each after a charge or on a path without one" % len(allocs), nontrivial=True, fn=f)
+    ctx.count(rid + ".functions", n)
+    ctx.floor(rid + ".functions", 4)
+
+
 def untracked_source(f, t):
     """the unwrapped Result comes from a call one of whose arguments is the constant None (tracker)"""
     defs = Defs(f)
@@ -548,6 +603,7 @@ def main(pid, tier, repo=None):
         rule_handle(ctx)
         rule_noleak(ctx)
         rule_oom(ctx)
+        rule_account_first(ctx)
         # exhaustion must surface as an error also when it happens in one of several parallel tasks: the shared result slot is monotone
         from . import c07
         c07.rule_errslot(ctx)
